@@ -185,6 +185,20 @@ impl<'ast, 'a> Visit<'ast> for BodyV<'a> {
         }
         syn::visit::visit_local(self, l);
     }
+    fn visit_block(&mut self, b: &'ast syn::Block) {
+        // early exits guard the rest of the block: after `if C { ..; return X; }` (no else) the remaining statements run
+        // under the negation of C, exactly as if they were the else branch
+        let depth = self.conds.len();
+        for st in &b.stmts {
+            self.visit_stmt(st);
+            if let syn::Stmt::Expr(syn::Expr::If(e), _) = st {
+                if e.else_branch.is_none() && block_diverges(&e.then_branch) {
+                    self.conds.push(format!("else of if {}", e.cond.to_token_stream()));
+                }
+            }
+        }
+        self.conds.truncate(depth);
+    }
     fn visit_expr_if(&mut self, e: &'ast syn::ExprIf) {
         let c = e.cond.to_token_stream().to_string();
         self.visit_expr(&e.cond);
@@ -238,6 +252,13 @@ impl<'ast, 'a> Visit<'ast> for BodyV<'a> {
             }
         }
         syn::visit::visit_macro(self, m);
+    }
+}
+
+fn block_diverges(b: &syn::Block) -> bool {
+    match b.stmts.last() {
+        Some(syn::Stmt::Expr(syn::Expr::Return(_), _)) | Some(syn::Stmt::Expr(syn::Expr::Continue(_), _)) | Some(syn::Stmt::Expr(syn::Expr::Break(_), _)) => true,
+        _ => false,
     }
 }
 
